@@ -183,7 +183,7 @@ def _item_paths(repo: Repo, cls: str, rel: str, meth: str, tcls: str, target: Op
     params = [a.arg for a in fi_.node.args.args]
     if len(params) != 8:
         raise Inconclusive(f"{cls}.{meth}: parameter list is {params}")
-    flow = compiler_flow(repo, cls, rel, primitives=("format_type", "get_nbits_of_integer"), pure=("format_type", "get_nbits_of_integer"), decide=_scenario_decider(repo, tcls, target, {"self._op_mode_big_endian": be}), names={})
+    flow = compiler_flow(repo, cls, rel, module_funcs=True, primitives=("format_type", "get_nbits_of_integer"), pure=("format_type", "get_nbits_of_integer"), decide=_scenario_decider(repo, tcls, target, {"self._op_mode_big_endian": be}), names={})
     args = {p: V(c) for p, c in zip(params[1:], PARAMS7)}
     args[params[0]] = V("self")
     return fi_, flow.run(fi_.node, args)
